@@ -285,7 +285,7 @@ def run(prog, rep):
                     rep.check(not w, "SRC-1", "%s opens %s read-only" % (f.name, target), "read mode",
                               "%s opens %s in a writing mode: the source may be modified" % (f.name, target), where(f, c),
                               witness="the 1.0 source file is truncated or changed")
-    rep.floor("SRC-1", n_open, 3, "open() calls in the converter")
+    rep.floor("SRC-1", n_open, 2, "open() calls in the converter")
     for f in vc.methods.values():
         for c in calls_in(f.node):
             fn = call_name(c)
